@@ -2,8 +2,18 @@
 """prints the prompt for an independent 'seeded change' agent for property Cxx (nothing from /verif is shown to it)."""
 import json, sys
 pid = sys.argv[1]
+ROUND = sys.argv[2] if len(sys.argv) > 2 else ''
+import glob, os
+avoid = ''
+if ROUND:
+    items = []
+    for f in sorted(glob.glob('/verif/seeded/%s-*/meta.json' % pid)):
+        try: items.append('   - ' + (json.load(open(f)).get('summary') or '')[:300].replace('\n', ' '))
+        except Exception: pass
+    if items:
+        avoid = '\nTwo earlier changes for this property already exist; yours must use DIFFERENT code sites or mechanisms than these:\n' + '\n'.join(items) + '\n'
 p = next(json.loads(l) for l in open('/verif/properties.jsonl') if json.loads(l)['id'] == pid)
-print(f"""You are testing how well a Go codebase's safety net catches subtle regressions. You work ONLY inside the scratch git worktree /tmp/mut-{pid}/wt (a checkout of the repository spikeekips/mitum, a Go blockchain node framework implementing the ISAAC consensus) and write your results to /tmp/mut-{pid}/out/. Do not read or write anything under /verif or /repo (other than through your worktree).
+print(f"""You are testing how well a Go codebase's safety net catches subtle regressions. You work ONLY inside the scratch git worktree /tmp/mut{ROUND}-{pid}/wt (a checkout of the repository spikeekips/mitum, a Go blockchain node framework implementing the ISAAC consensus) and write your results to /tmp/mut{ROUND}-{pid}/out/. Do not read or write anything under /verif or /repo (other than through your worktree).
 
 The following semantic property of the codebase is supposed to hold:
 
@@ -12,6 +22,7 @@ The following semantic property of the codebase is supposed to hold:
   It is meant to hold over: {p['quantifier']['text']}
   Anchored in: {', '.join(p['anchors']['files'])}
 
+{avoid}
 Your task: produce TWO independent, realistic changes to the repository's non-test Go source (call them A and B, using different mechanisms / code sites where possible) such that EACH change, applied alone:
   1. still compiles: `go build ./...` and `go build -tags test ./...` both succeed;
   2. still passes the existing tests: the pinned baseline is `go test -vet=off -count=1 ./util/...` WITHOUT build tags (in package util the 5 tests TestJobWorker, TestBatchWork, TestErrCallbackJobWorker, TestContextDaemon, TestRetry fail in this sandbox even without any change: ignore those); in addition the repository's own tagged tests of the package(s) you touch (`go test -vet=off -tags test -count=1 ./<pkg>/`; may take minutes; for big packages run the tests related to the code you touched with -run) must pass exactly as they do without your change (record what you ran and the outcome);
@@ -21,7 +32,7 @@ Your task: produce TWO independent, realistic changes to the repository's non-te
 Practicalities:
   - Per shell call: `export GOFLAGS=-mod=mod GOPROXY=off GOSUMDB=off GOTOOLCHAIN=local` (no network; everything needed is in the module cache). Go commands may rewrite go.mod/go.sum in the worktree: run `git checkout -- go.mod go.sum` before producing diffs.
   - The repository's test fixtures live in non-_test files guarded by `//go:build test`; demonstrations that need them must carry `//go:build test` and be run with `-tags test`. Put the demonstration in the package it tests (e.g. base/zz_demo_test.go).
-  - For each change X in {{A, B}} write into /tmp/mut-{pid}/out/X/ :
+  - For each change X in {{A, B}} write into /tmp/mut{ROUND}-{pid}/out/X/ :
       patch.diff   — `git diff` of the source change only (no demo, no go.mod noise), applies with `git apply` at the worktree's HEAD;
       the demonstration file(s), plus in meta.json the path where each must be placed;
       meta.json    — {{"property": "{pid}", "summary": "...", "needs_to_manifest": "...", "files_changed": [...], "demo": {{"file": "<name>", "place_at": "<path in repo>", "run": "<exact go test command>"}}, "ran": ["<commands you ran and their outcome>"]}}
